@@ -310,13 +310,30 @@ def rule_7(ctx):
                    f'{a} = {LOGIC_CELLS[a]} evaluates to {got!r}, expected {w!r} (A1=5, A2=0, A3=4e-16, B4 empty): numbers are TRUE exactly when '
                    'non-zero, blanks are skipped by AND/OR and FALSE as a condition, only the selected branch is evaluated, an evaluated error is '
                    'the result')
+    # the same workbook loaded through the reader path (a stored 0 is a number, not an empty cell)
+    wbx = W.Workbook(ctx, sheets={'Sheet1': LOGIC_CELLS})
+    for a, w in LOGIC_EXPECTED.items():
+        got = wbx.value('Sheet1!' + a)
+        if isinstance(got, tuple) and got and got[0] == 'error-class':
+            got = ('error', W.error_code(ctx, got[1]))
+        ctx.expect(S.same(got, _as_value(w)), anchor, f'logic workbook loaded from a file: {a} = {LOGIC_CELLS[a]}',
+                   f'{a} = {LOGIC_CELLS[a]} evaluates to {got!r} in the model loaded through the reader, expected {w!r} (A1=5, A2=0, A3=4e-16, B4 empty)')
+    # ranges written in lower case (no other formula spells them otherwise)
+    lower = {'A1': True, 'A2': False, 'A3': 1, 'Y1': '=AND(a1:a3)', 'Y2': '=OR($a$1:$a$3)', 'Y3': '=IF(OR(A1:a3),10)', 'Y4': '=NOT(OR(Sheet1!a1:a3))', 'Y5': '=AND(a1:a2)',
+             'Y6': '=IF(AND(a3:a3),"one","none")'}
+    lwant = {'Y1': False, 'Y2': True, 'Y3': 10, 'Y4': False, 'Y5': False, 'Y6': 'one'}
+    wbl = W.Workbook(ctx, lower)
+    for a, w in lwant.items():
+        got = wbl.value('Sheet1!' + a)
+        ctx.expect(S.same(got, _as_value(w)), anchor, f'ranges written in lower case: {lower[a]}',
+                   f'{a} = {lower[a]} (A1 = TRUE, A2 = FALSE, A3 = 1) evaluates to {got!r}, expected {w!r}')
     steps = [('eval', 'Z1'), ('eval', 'Z3'), ('set', 'A2', 1), ('eval', 'Z1'), ('eval', 'Z3'), ('eval', 'L2'), ('set', 'A3', 0), ('eval', 'Z1'),
              ('eval', 'Z3'), ('eval', 'T2'), ('eval', 'T5'), ('set', 'A1', -1), ('eval', 'L1'), ('eval', 'Z2'), ('eval', 'L5'), ('set', 'A2', 0),
              ('eval', 'Z3'), ('eval', 'Z2'), ('eval', 'L6')]
     hist_cells = {k: v for k, v in LOGIC_CELLS.items() if k[0] in 'AB' or k in ('Z1', 'Z2', 'Z3', 'L1', 'L2', 'L5', 'L6', 'T2', 'T5')}
     S.check_history(ctx, anchor, 'logic history', hist_cells, steps, cache={}, check_stored=False,
                     why='AND / OR / IF over ranges and cells see the current values of their precedents.')
-    ctx.floor(43, 'logic cells + history steps')
+    ctx.floor(80, 'logic cells + history steps')
 
 
 RULES = [
